@@ -1,6 +1,7 @@
 // SPDX-License-Identifier: BSD-3-Clause
 // Copyright 2022-2024 Shannon Booth <shannon.ml.booth@gmail.com>
 
+#include <cctype>
 #include <climits>
 #include <patch/options.h>
 
@@ -151,6 +152,10 @@ int OptionHandler::stoi(const std::string& str, const std::string& description)
 {
     int value;
     size_t pos;
+
+    // White space in front of a number is skipped by std::stoi, but is no part of a number.
+    if (!str.empty() && std::isspace(static_cast<unsigned char>(str.front())))
+        throw cmdline_parse_error(description + " " + str + " is not a number");
 
     try {
         value = std::stoi(str, &pos);
